@@ -1,6 +1,6 @@
 //! C13 harness: serial allocation on a real connection and the reply constructors.
 //! Same line protocol as ocaml/c13/driver.ml.
-//!   hist <op> ...      op := a | x<n> (n allocations, prints the last) | s:<l|B>:<preset|->:<g|b>:<c|W>   (c: send_message + write_all, W: send_message_write_all;
+//!   hist <op> ...      op := a | p:<l|B>:<preset|->:<g|b>:<k> (send, partial write, into_progress, k allocations, resume, finish) | x<n> (n allocations, prints the last) | s:<l|B>:<preset|->:<g|b>:<c|W>   (c: send_message + write_all, W: send_message_write_all;
 //!                                                              b: the message has an invalid member name -> marshal error)
 //!     -> a:<serial> | s:<reported>:<serial in bytes 8..12 read at the peer>:<byte order flag read at the peer> | e
 //!   reply <resp|err|unk|inv|rawunk|rawinv> serial= sender= iface= member= object= dest= sig= name= text= rserial=
@@ -38,12 +38,31 @@ fn read_message(peer: &mut std::os::unix::net::UnixStream) -> Vec<u8> {
     h
 }
 
+/// everything that is queued at the peer, without blocking
+fn drain(peer: &mut std::os::unix::net::UnixStream, got: &mut Vec<u8>) {
+    peer.set_nonblocking(true).unwrap();
+    let mut buf = vec![0u8; 1 << 16];
+    loop {
+        match peer.read(&mut buf) {
+            Ok(0) => break,
+            Ok(n) => got.extend_from_slice(&buf[..n]),
+            Err(_) => break,
+        }
+    }
+    peer.set_nonblocking(false).unwrap();
+}
+
 fn hist(ops: &[&str]) -> String {
     let (mut conn, mut peer) = match std::panic::catch_unwind(|| connect_pair(false)) {
         Ok(p) => p,
         Err(_) => return "SETUPFAIL".to_string(),
     };
     peer.set_read_timeout(Some(std::time::Duration::from_secs(20))).unwrap();
+    if ops.iter().any(|o| o.starts_with("p:")) {
+        use std::os::fd::{AsRawFd, BorrowedFd};
+        let b = unsafe { BorrowedFd::borrow_raw(conn.send.as_raw_fd()) };
+        nix::sys::socket::setsockopt(&b, nix::sys::socket::sockopt::SndBuf, &4608usize).unwrap();
+    }
     let mut out = Vec::new();
     for o in ops {
         if o.is_empty() {
@@ -90,6 +109,78 @@ fn hist(ops: &[&str]) -> String {
         msg.dynheader.object = Some("/obj".to_string());
         if f[2] != "-" {
             msg.dynheader.serial = NonZeroU32::new(f[2].parse().unwrap());
+        }
+        if f[0] == "p" {
+            // a send that is suspended after a partial write, k allocations, resume, written to the end
+            let k: usize = f[4].parse().unwrap();
+            msg.body.push_param(&vec![0x5au8; 200_000][..]).unwrap();
+            let allocs = |conn: &mut rustbus::connection::ll_conn::DuplexConn| -> Option<String> {
+                let mut v = Vec::new();
+                for _ in 0..k {
+                    match std::panic::catch_unwind(std::panic::AssertUnwindSafe(|| conn.send.alloc_serial())) {
+                        Ok(s) => v.push(s.get().to_string()),
+                        Err(_) => return None,
+                    }
+                }
+                Some(if v.is_empty() { "-".to_string() } else { v.join("+") })
+            };
+            let first = match conn.send.send_message(&msg) {
+                Err(_) => None,
+                Ok(mut ctx) => {
+                    let total = ctx.bytes_total();
+                    let r = ctx.write_once(rustbus::connection::Timeout::Nonblock);
+                    let partial = matches!(r, Ok(n) if n > 0 && n < total) && !ctx.all_bytes_written();
+                    if !partial {
+                        ctx.force_finish();
+                        out.push("NOPARTIAL".to_string());
+                        break;
+                    }
+                    Some((ctx.into_progress(), total))
+                }
+            };
+            let between = match allocs(&mut conn) {
+                Some(b) => b,
+                None => {
+                    out.push("PANIC".to_string());
+                    break;
+                }
+            };
+            match first {
+                None => out.push(if between == "-" { "e".to_string() } else { format!("e:{}", between) }),
+                Some((progress, total)) => {
+                    let mut ctx = rustbus::connection::ll_conn::SendMessageContext::resume(&mut conn.send, &msg, progress);
+                    let ctx_serial = ctx.serial();
+                    let mut got: Vec<u8> = Vec::new();
+                    let mut rounds = 0usize;
+                    let written = loop {
+                        match ctx.write(rustbus::connection::Timeout::Nonblock) {
+                            Ok(s) => break Some(s),
+                            Err((c, _)) => {
+                                ctx = c;
+                                drain(&mut peer, &mut got);
+                                rounds += 1;
+                                if rounds > 1_000_000 {
+                                    ctx.force_finish();
+                                    break None;
+                                }
+                            }
+                        }
+                    };
+                    drain(&mut peer, &mut got);
+                    match written {
+                        Some(s) if got.len() == total && got.len() >= 16 => {
+                            let mut t = format!("p:{}:{}:{}:{}", s.get(), u32_at(&got, 8, got[0]), got[0] as char, between);
+                            if ctx_serial != s {
+                                t.push_str(&format!(":ctx{}", ctx_serial.get()));
+                            }
+                            out.push(t);
+                        }
+                        Some(s) => out.push(format!("p:{}:short{}of{}", s.get(), got.len(), total)),
+                        None => out.push("p:stuck".to_string()),
+                    }
+                }
+            }
+            continue;
         }
         let mut ctx_serial: Option<NonZeroU32> = None;
         let reported = if f[4] == "W" {
